@@ -23,7 +23,8 @@ type Scope struct {
 	parTok  map[string][]*Token       // par gateway -> parked token objects
 	incWait map[string][]*Token       // inclusive gateway -> tokens parked at the join
 	armed   map[string][]*Token       // catch event -> tokens listening
-	started bool
+	started     bool
+	interrupted bool
 }
 
 // Token is one BPMN token.
